@@ -249,6 +249,9 @@ def gen_blocks(rng, size):
         u1, u2 = rng.choice(units), rng.choice(units)
         blocks.append("sub%d {\n    dens%d   mss%d %d %s / vol%d %s\n    konst%d const kin%d %d %s\n}" %
                       (i, i, i, rng.randrange(2, 9), u1, i, u2, i, i, rng.randrange(2, 9), u1))
+    # documentation comments travel with the definition they precede (units, prefixes, quantities, substances alike)
+    blocks = [("?? About %s, definition %d.\n%s" % (b.split()[0].rstrip("-"), n, b)) if rng.random() < 0.3 else b
+              for n, b in enumerate(blocks)]
     blocks.append('!category cat "Category"\ncatunit %s\n!endcategory' % rng.choice(units))
     return blocks
 
